@@ -169,7 +169,7 @@ Definition obs_ok (tol : tolerance) (t : ty) (d : jv) (o : obs) : bool :=
   match o with
   | OPanic => false                                   (* it never panics *)
   | OErr => true                                      (* failing with an error is always allowed *)
-  | OOk v => agrees_t tol t d v                       (* exact, defaults, optional zero, required, options, range *)
+  | OOk v => val_finite v && agrees_t tol t d v       (* finite floats; exact, defaults, optional zero, required, options, range *)
   end.
 
 (* "optional absent fields stay zero": a document that leaves out every field of an all-optional struct cannot
